@@ -120,3 +120,50 @@ fn p10_precedes_all_whitespace() {
     let r = catch_unwind(AssertUnwindSafe(|| a.test_set(&TextSelectionOperator::samerange(), &bset)));
     println!("PROBE p10b samerange test_set: {:?}", r.map_err(|_| "PANIC"));
 }
+
+// ---------------------------------------------------------------------------------------------
+// Second batch (C06 range-selection suspects), replayed 2026-09-26 on the unchanged tree.
+// Observed output:
+//   q1 succeeds(ws) from (4,6): []            (test() says (4,6) succeeds (0,2) = true)
+//   q2 precedes(ws), gap of 14 spaces: test() = true, related_text = []
+//   q3 after(limit 3) from (10,12): [(8,9)]   misses (2,9) although test() = true
+//   q3 before(limit 3) from (2,4): [(6,8)]    misses (7,9) although test() = true
+//   q4 embeds from (2,8): []                  misses zero-width (8,8)
+//   q4 before from (2,8): [(8,8)]             misses zero-width (10,10) at textlen
+//   q4 resource.textselections().count() = 3  (4 known selections; the one at textlen is skipped)
+fn base2(text: &str, sels: &[(usize,usize)]) -> AnnotationStore {
+    let mut store = AnnotationStore::default()
+        .with_resource(TextResourceBuilder::new().with_id("r").with_text(text)).unwrap()
+        .with_dataset(AnnotationDataSetBuilder::new().with_id("s")).unwrap();
+    for (i,(b,e)) in sels.iter().enumerate() {
+        store.annotate(AnnotationBuilder::new().with_id(format!("A{}",i)).with_target(SelectorBuilder::textselector("r", Offset::simple(*b,*e))).with_data("s","k",format!("v{}",i))).unwrap();
+    }
+    store
+}
+fn rel2(store: &AnnotationStore, from: &str, op: TextSelectionOperator) -> Vec<(usize,usize)> {
+    store.annotation(from).unwrap().related_text(op).map(|t| (t.begin(), t.end())).collect()
+}
+#[test]
+fn q1_succeeds_ws() {
+    let store = base2("ab  cd      ef", &[(0,2),(4,6),(12,14)]);
+    println!("PROBE q1 succeeds(ws) from (4,6): {:?} (expect [(0,2)])", rel2(&store,"A1",TextSelectionOperator::succeeds()));
+}
+#[test]
+fn q2_precedes_long_gap() {
+    let store = base2("ab              cd", &[(0,2),(16,18)]);
+    println!("PROBE q2 related precedes(ws) from (0,2): {:?}", rel2(&store,"A0",TextSelectionOperator::precedes()));
+}
+#[test]
+fn q3_limits() {
+    let store = base2("0123456789abcdef", &[(10,12),(2,9),(8,9)]);
+    println!("PROBE q3 after(limit 3) from (10,12): {:?}", rel2(&store,"A0",TextSelectionOperator::after().with_limit(3)));
+    let store = base2("0123456789abcdef", &[(2,4),(7,9),(6,8)]);
+    println!("PROBE q3 before(limit 3) from (2,4): {:?}", rel2(&store,"A0",TextSelectionOperator::before().with_limit(3)));
+}
+#[test]
+fn q4_zero_width() {
+    let store = base2("0123456789", &[(2,8),(10,10),(8,8),(0,10)]);
+    println!("PROBE q4 embeds from (2,8): {:?}", rel2(&store,"A0",TextSelectionOperator::embeds()));
+    println!("PROBE q4 before from (2,8): {:?}", rel2(&store,"A0",TextSelectionOperator::before()));
+    println!("PROBE q4 textselections count={}", store.resource("r").unwrap().textselections().count());
+}
